@@ -145,7 +145,7 @@ theorem c02_checkpoint_iff_condition (c : Ckpt) (sub : Option Nat) (st : St) (hn
       | some r =>
         by_cases hr : r.outcome = .fail
         · have hb : (r.outcome == PO.fail) = true := by simp [hr]
-          cases c.failSubtest <;> cases sub <;> simp [hr, hb]
+          cases c.failSubtest <;> cases sub <;> simp [hr]
         · have hb : (r.outcome == PO.fail) = false := by simp [hr]
           cases c.failSubtest <;> cases sub <;> simp [hr, hb]
     | allPrev =>
@@ -173,7 +173,7 @@ theorem c02_checkpoint_iff_condition (c : Ckpt) (sub : Option Nat) (st : St) (hn
         · have : st.phases.any (fun r => r.subtest == some name && r.outcome == .fail) = false := by
             simpa [List.any_eq_false] using h
           cases c.failSubtest <;> simp [this, h]
-  · simp only [evalCheckpoint]
+  · simp only [evalCheckpoint, finishNode]
     split
     · simp [setLast]
     · split <;> simp
